@@ -172,3 +172,35 @@ Fixpoint client_events (handler : Serve.bstr -> Serve.hres) (J : jstate) (evs : 
       | None => []
       end
   end.
+
+(* the server's view of a joint run: the event list Serve.step saw *)
+Fixpoint sent_events (sv : Serve.st) (outs : list Tags.hout) : list Serve.event :=
+  match outs with
+  | [] => []
+  | Tags.OFrame t c mt :: rest =>
+      let e := ESend (nsent sv) t (KReq (qbody (qmsg c mt))) in
+      match Serve.step repaired sv e with
+      | Some (sv1, _) => e :: sent_events sv1 rest
+      | None => sent_events sv rest
+      end
+  | _ :: rest => sent_events sv rest
+  end.
+
+Fixpoint server_events (handler : Serve.bstr -> Serve.hres) (J : jstate) (evs : list jevent) : list Serve.event :=
+  match evs with
+  | [] => []
+  | e :: rest =>
+      match jstep handler J e with
+      | Some (J1, _) =>
+          (match e with
+           | JC ce => sent_events (j_sv J) (snd (Tags.hstep (j_cl J) ce))
+           | JS se => [se]
+           | JFinish rid => match nth_error (j_sent J) (N.to_nat rid) with
+                            | Some m => [EFinish rid (handler m)]
+                            | None => []
+                            end
+           | JResp => []
+           end) ++ server_events handler J1 rest
+      | None => []
+      end
+  end.
